@@ -58,6 +58,22 @@ def tlc_cases(r, what):
     return r.jsons("CASE")
 
 
+KINDS = {"block", "set", "ins", "sel", "dup", "sig", "if", "case", "while", "repeat", "loop", "leave", "iter"}
+
+
+def kinds_of(s, acc):
+    """Statement kinds occurring in a program (coverage accounting only)."""
+    acc.add(s["k"])
+    for sub in s.get("body", []) + s.get("els", []):
+        kinds_of(sub, acc)
+    for a in s.get("arms", []):
+        for sub in a["body"]:
+            kinds_of(sub, acc)
+    for h in s.get("hs", []):
+        acc.add("handler-" + h["act"])
+    return acc
+
+
 def binding_a(binp, v, scd, tag, raw, id_base, max_hang_cases, rnd):
     """Execute TLC-emitted programs and compare with the emitted expectation. Returns stats."""
     excl = sum(1 for c in raw if c["excl"] or c.get("mexcl"))
@@ -105,7 +121,10 @@ def binding_a(binp, v, scd, tag, raw, id_base, max_hang_cases, rnd):
             detail["case_file"] = save_case(c, "a-%s" % tag)
     nt = sum(1 for c in res if c["nt"])
     samples = [{"sql": c["sql"], "args": c["prog"]["args"], "got": c["got"]} for c in res if c["nt"] and canon(c["got"]) == canon(c["exp"])][:2]
-    return {"emitted": len(raw), "excluded": excl, "executed": len(res), "nontrivial": nt, "mismatches": len(bad),
+    kinds = set()
+    for c in res:
+        kinds_of(c["prog"]["body"], kinds)
+    return {"emitted": len(raw), "excluded": excl, "executed": len(res), "nontrivial": nt, "mismatches": len(bad), "kinds": sorted(kinds),
             "coded": sum(1 for c in bad if canon(c["got"]) == canon(c["mach"])), "model_drift": drift,
             "predicted_hang": hang_pred, "samples": samples, "outcomes": rep["extra"].get("outcomes")}
 
@@ -158,7 +177,10 @@ def binding_b(binp, v, scd, tag, cases_path, chunk):
             detail["case_file"] = save_case(ev, "b-%s" % tag)
     ok = [j for j in js.values() if j["what"] == "ok"]
     samples = [{"sql": j["ev"]["sql"], "args": j["ev"]["prog"]["args"], "got": j["ev"]["got"]} for j in ok if j.get("nt")][:2]
-    return {"executed": len(res), "judged": len(js), "excluded": sum(1 for j in js.values() if j["what"] == "excluded"),
+    kinds = set()
+    for c in res:
+        kinds_of(c["prog"]["body"], kinds)
+    return {"executed": len(res), "judged": len(js), "kinds": sorted(kinds), "excluded": sum(1 for j in js.values() if j["what"] == "excluded"),
             "ok": len(ok), "nontrivial": sum(1 for j in js.values() if j.get("nt")), "mismatches": len(bad),
             "coded": sum(1 for j in bad if j["coded"]), "states": states, "samples": samples,
             "outcomes": rep["extra"].get("outcomes"), "not_reproducing": [j["ev"].get("finding") for j in js.values() if j["what"] != "mismatch"]}
@@ -197,13 +219,12 @@ def check(tier):
             return r, st
 
         def pipe_exh():
-            r = lib.tlc("MC_Proc", exh_cfg, workers=tw, timeout=6000, coverage=not quick, heap="6g")
+            # no `-coverage 1`: TLC's coverage bookkeeping runs out of memory on the recursive interpreters of
+            # ProcMachine (measured: 8 GB heap, even for the 2-node configuration); vacuity is guarded by the
+            # explicit counters below (states, statement kinds, non-trivial runs, outcomes) instead
+            r = lib.tlc("MC_Proc", exh_cfg, workers=tw, timeout=6000, heap="8g")
             raw = tlc_cases(r, "MC_Proc/" + exh_cfg)
             lib.log("[C24] TLC exhaustive done %.1fs (%d states, %d cases emitted)" % (time.time() - t0, r.distinct, len(raw)))
-            if not quick:
-                z = r.coverage_zero()
-                if z:
-                    raise lib.Inconclusive("vacuous: actions never taken: %s" % z)
             if r.distinct < 1000:
                 raise lib.Inconclusive("exhaustive enumeration too small: %d states" % r.distinct)
             st = binding_a(binp, v, scd, "exh", raw, 2000000, 3 if quick else 30, rnd)
@@ -275,6 +296,12 @@ def check(tier):
             raise lib.Inconclusive("vacuous binding A: %s" % ast)
         if bst["ok"] + bst["mismatches"] < nb * 0.6 or bst["nontrivial"] < nb * 0.1:
             raise lib.Inconclusive("vacuous binding B: %s" % bst)
+        need = KINDS | {"handler-continue", "handler-exit"}
+        for name, st in (("binding A sampled", ast), ("binding B", bst)):
+            if need - set(st["kinds"]):
+                raise lib.Inconclusive("vacuous %s: statement kinds never executed: %s" % (name, sorted(need - set(st["kinds"]))))
+        if len({o for st in (ast, bst) for o in (st["outcomes"] or {})} & {"none", "45000", "23000", "20000"}) < 4:
+            raise lib.Inconclusive("vacuous: not every outcome class was observed: %s %s" % (ast["outcomes"], bst["outcomes"]))
         rc = v.finish()
         executed = ast["executed"] + xst["executed"] + bst["judged"]
         programs_theorem = r_exh.distinct + nsim
